@@ -38,7 +38,7 @@ def main(tier, replay, t0):
                                   "module could not be called: %s" % (
                                       (ps or {}).get("diags", [{}])[0].get("message") if ps and
                                       ps.get("diags") else "probe not built"),
-                                  {"wgsl": c.wgsl, "options": x["opt"]}))
+                                  {"case_id": c.id, "wgsl": c.wgsl, "options": x["opt"]}))
             continue
         groups, pl, _ = probes.recorded_layouts(camp, c.id, x["id"], "C02")
         bits = c.truth["stage_bits"]
@@ -66,7 +66,7 @@ def main(tier, replay, t0):
                     if en["binding"] == g.binding:
                         entry = en
             decisions += 1
-            rp = {"wgsl": c.wgsl, "options": x["opt"], "global": g.name, "group": g.group,
+            rp = {"case_id": c.id, "wgsl": c.wgsl, "options": x["opt"], "global": g.name, "group": g.group,
                   "binding": g.binding, "expected": probes.stage_names(bits[g.name])}
             if entry is None:
                 viol.append(Violation("entry-missing", g.kind, "no layout entry recorded for "
@@ -101,7 +101,7 @@ def main(tier, replay, t0):
                                               "push constant range stages %s, variable used by %s"
                                               % (probes.stage_names(r["stages"]),
                                                  probes.stage_names(p["stages"])),
-                                              {"wgsl": c.wgsl, "options": x["opt"]}))
+                                              {"case_id": c.id, "wgsl": c.wgsl, "options": x["opt"]}))
         if len(samples) < 3 and len(c.spec.funcs) >= 3:
             samples.append({"case": c.id, "graph": [f for f in c.spec.families if "graph" in f],
                             "entries": [(e.name, e.stage) for e in c.spec.entries],
